@@ -29,9 +29,12 @@ REQUIRED_STRATA = {"recompute": 200, "table-sort": 1500, "vector-sort": 800, "re
 
 
 def cmp_vals(a, b):
-	if a == b:
+	if a is b or a == b:
 		return 0
-	return -1 if a < b else 1
+	if a < b:
+		return -1
+	# (values ordered by < alone: neither smaller is a tie, whatever == says)
+	return 1 if b < a else 0
 
 
 def cmp_keys(ka, kb, revs, na_last):
@@ -443,7 +446,59 @@ def directed_sort_specs(rng):
 				ref = {"mode": "vector", "name": "src"} if mode == "vector" else {"mode": "external", "values": list(cells_), "name": None}
 				out.append({"rewrite": False, "table": {"names": ["src", "dst", "w"], "cols": [list(cells_), [rng.choice(["a", "b", "c"]) for _ in range(n)], [rng.randrange(5) for _ in range(n)]]}, "by": [ref],
 					"reverse": list(rev), "reverse_form": revform, "na_last": True, "scalar_by": True, "by_container": "list", "id_first": False})
+	# an earlier key whose cells are ordered by < alone (ties between different, unequal objects), a later key that has to order the tied rows
+	for ranks, second in (([1, 0, 1, 0, 1], [3, 2, 1, 0, 0]), ([0, 0, 0], [2, 1, 0]), ([2, 1, 2, 1], ["b", "b", "a", "a"]), ([1, 1, 0, 1], [None, 5, 1, 4])):
+		for revs in ([False, False], [False, True], [True, False], [True, True]):
+			for modes in (("name", "name"), ("vector", "name")):
+				n = len(ranks)
+				out.append({"rewrite": False, "table": {"names": ["o", "k", "pay"], "cols": [[V.OrdOnly(r, "abcde"[i]) for i, r in enumerate(ranks)], list(second), [f"p{i}" for i in range(n)]]},
+					"by": [{"mode": modes[0], "name": "o"}, {"mode": modes[1], "name": "k"}], "reverse": list(revs), "reverse_form": "list", "na_last": True, "scalar_by": False, "by_container": "list", "id_first": False})
+	# labels that begin with a dash are labels: the key is that column, in the direction asked for
+	for names, keyname in ((["-x", "x", "pay"], "-x"), (["x", "-x", "pay"], "-x"), (["-1d", "k", "pay"], "-1d"), (["--", "-", "pay"], "--"), (["-x y", "x_y", "pay"], "-x y"), (["+x", "x", "pay"], "+x"), (["~x", "x", "pay"], "~x"), (["!x", "x", "pay"], "!x")):
+		for rev in (False, True):
+			for scalar in (True, False):
+				out.append({"rewrite": False, "table": {"names": list(names), "cols": [[3, 1, 2, 1, None], [1, 2, 3, 4, 5], [f"p{i}" for i in range(5)]]}, "by": [{"mode": "name", "name": keyname}],
+					"reverse": [rev], "reverse_form": "bool", "na_last": True, "scalar_by": scalar, "by_container": "list", "id_first": False})
 	return out
+
+
+def run_row_sort(chk, spec):
+	"""a row is a vector: sort_by of each row of ONE iteration (a single view moved along the table), and of one row object moved by hand, is the sorted
+	permutation of THAT row's cells"""
+	rows = spec["rows"]
+	cols = [list(c) for c in zip(*rows)]
+	t = Table({f"c{j}": col for j, col in enumerate(cols)})
+	got = {}
+	if spec["how"] == "iteration":
+		for i, row in enumerate(t):
+			got[i] = call(lambda: row.sort_by(reverse=spec["reverse"], na_last=spec["na_last"]))
+			if got[i].ok:
+				got[i] = list(got[i].value._underlying)
+	elif spec["how"] == "moved-by-hand":
+		r = t[0]
+		for i in (0, len(rows) - 1, 1 % len(rows)):
+			o = call(lambda: r.set_index(i).sort_by(reverse=spec["reverse"], na_last=spec["na_last"]))
+			got[i] = list(o.value._underlying) if o.ok else o
+	else:
+		for i in range(len(rows)):
+			o = call(lambda: t[i].sort_by(reverse=spec["reverse"], na_last=spec["na_last"]))
+			got[i] = list(o.value._underlying) if o.ok else o
+	chk.judged("vector-sort", ("row-sort", spec["how"], spec["reverse"], spec["na_last"], len(rows)))
+	for i, g in sorted(got.items()):
+		vals = list(rows[i])
+		if not isinstance(g, list):
+			chk.fail("Vector.sort_by sorts every admissible input", f"vector-sort/row/raises/{spec['how']}", f"{spec!r}: row {i} {vals!r}: {g!r}")
+			return
+		nn = [x for x in vals if x is not None]
+		exp = sorted(nn, reverse=spec["reverse"])
+		nones = [None] * (len(vals) - len(nn))
+		exp = exp + nones if spec["na_last"] else nones + exp
+		if g != exp:
+			chk.fail("Vector.sort_by returns the sorted permutation of the values", f"vector-sort/row/wrong-cells/{spec['how']}", f"{spec!r}: row {i} = {vals!r} sorted gives {g!r}, expected {exp!r}")
+			return
+
+
+RUNNERS["row_sort"] = run_row_sort
 
 
 def run(chk):
@@ -451,6 +506,11 @@ def run(chk):
 	rng = chk.rng
 	for spec in directed_sort_specs(rng):
 		chk.case("table_sort", spec, "table-sort-directed")
+	for rows in ([[3, 1, 2], [9, 8, 7], [5, 6, 4]], [[1, None, 0], [None, 2, 1], [3, 3, None]], [[2, 1], [1, 2]], [[1, 2, 3, 4]]):
+		for how in ("iteration", "moved-by-hand", "fetched"):
+			for reverse in (False, True):
+				for na_last in (True, False):
+					chk.case("row_sort", {"rows": rows, "how": how, "reverse": reverse, "na_last": na_last}, "row-sort")
 	for how in ("replaced-column", "other-table", "earlier-sort-result", "renamed-and-restacked"):
 		for reverse in (False, True):
 			for n in (3, 5, 8):
